@@ -211,7 +211,12 @@ def read_psy(psy_text):
                             c = calls[0]
                             r.loops.append(("call", G.norm(c.items[0].tostr()), _args_of_call(c)))
                         elif asg:
-                            r.loops.append(("assign", G.norm(asg[0].items[0].tostr()), G.norm(asg[0].items[2].tostr())))
+                            # the loop variable (df, or df_1 when an argument is called df) is written `$`
+                            m = re.match(r"do([a-z_]\w*)=", G.norm(ch.content[0].tostr()))
+                            lv = m.group(1) if m else "df"
+                            sides = [re.sub(r"(?<![%\w.])" + lv + r"(?!\w)", "$", G.norm(asg[0].items[k].tostr()))
+                                     for k in (0, 2)]
+                            r.loops.append(("assign", sides[0], sides[1]))
                     continue
                 if isinstance(ch, (F.Assignment_Stmt, F.Pointer_Assignment_Stmt)):
                     lhs = G.norm(ch.items[0].tostr())
